@@ -611,4 +611,11 @@ def c07_h(ctx: Ctx):
     return res
 
 
-RULES = [c07_a, c07_b, c07_c, c07_d, c07_e, c07_f, c07_g, c07_h]
+@rule("C07-i")
+def c07_i(ctx: Ctx):
+    """Every sub-command that takes -f / -j tells an empty selection from no selection by identity."""
+    from . import cli
+    return cli.selection_discipline(ctx, "C07-i")
+
+
+RULES = [c07_a, c07_b, c07_c, c07_d, c07_e, c07_f, c07_g, c07_h, c07_i]
